@@ -39,6 +39,7 @@ def main (args : List String) : IO UInt32 := do
   | ["cache"] => loopState stdin stdout cacheStep (Drand.Beacon.Cache.empty 96); return 0
   | "chain" :: _ => loopState stdin stdout chainStep (Drand.Chain.Stack.init true []); return 0
   | ["hash"] => loopPure stdin stdout hashStep; return 0
+  | ["handler"] => loopState stdin stdout handlerStep ({} : Sim); return 0
   | ["store", backend] =>
     match storeInit backend with
     | some st => loopState stdin stdout storeStep st; return 0
